@@ -623,8 +623,7 @@ func (e *Explorer) Explore(sc *Scenario) {
 		}
 		for i := 0; i < n; i++ {
 			if !e.Deadline.IsZero() && time.Now().After(e.Deadline) {
-				e.Stats.Exhaustive = false
-				return
+				return // (a sampling pass has no notion of exhaustive: the budget just ends it)
 			}
 			e.RunOnce(sc, nil, nil) // (the race detector is the only judge of this pass: a free run cannot be replayed)
 			e.Stats.Executions++
